@@ -21,12 +21,12 @@ const (
 )
 
 type Event struct {
-	Kind    string            `json:"kind"`
-	Label   string            `json:"label"`
-	Detail  string            `json:"detail,omitempty"`
-	Model   map[string]uint64 `json:"model,omitempty"`
+	Kind    string                       `json:"kind"`
+	Label   string                       `json:"label"`
+	Detail  string                       `json:"detail,omitempty"`
+	Model   map[string]uint64            `json:"model,omitempty"`
 	UF      map[string]map[string]uint64 `json:"uf,omitempty"`
-	Choices []int             `json:"choices,omitempty"`
+	Choices []int                        `json:"choices,omitempty"`
 }
 
 // KnownClass names a classifier predicate (declared in the harness with
